@@ -850,10 +850,10 @@ def main():
             for u in u8from:
                 body.append("instance : U8From %s := ⟨%s⟩" % (u.split("_")[0], u))
         body.append(d)
-    gen = ("-- GENERATED by tools/rs2lean.py from %s/src/dlt.rs on every run; do not edit.\n"
+    gen = ("-- GENERATED by tools/rs2lean.py from src/dlt.rs on every run; do not edit.\n"
            "-- Translation of the table-like functions of the source into Lean (see tools/rs2lean.py).\n"
            "import DltVerif.Model.Types\nset_option linter.unusedVariables false\nnamespace Dlt.Src\nopen Dlt\n%s\n%s\nend Dlt.Src\n"
-           % (REPO, pre, "\n\n".join(body)))
+           % (pre, "\n\n".join(body)))
     import extract_consts as ec
     ec.write_if_changed(os.path.join(LEAN, "Generated", "SrcCodes.lean"), gen)
     # three modules, so that the two long kernel evaluations (type-info writer / decoder) build in parallel
